@@ -14,7 +14,7 @@ from pyvc.units import Setup, Unit
 
 def ct_setup(ctx):
     orig_kind = ["text", "dash", "dict-object", "int-object"][ctx.choose(4, "value-kind")]
-    loaded_kind = ["same", "dict-from-config-file", "list-from-config-file", "loader-error"][ctx.choose(4, "parse_value_or_config")] if orig_kind in ("text", "dash") else "same"
+    loaded_kind = ["same", "dict-from-config-file", "list-from-config-file", "loader-error", "file-is-not-text(UnicodeDecodeError / embedded null byte: a ValueError)"][ctx.choose(5, "parse_value_or_config")] if orig_kind in ("text", "dash") else "same"
     first = ["accepts", "ValueError", "ValueError-from-PathError", "TypeError"][ctx.choose(4, "first-attempt")]
     second = ["accepts", "ValueError"][ctx.choose(2, "second-attempt")]
     enable_path = ctx.choose(2, "enable_path") == 1
@@ -37,6 +37,9 @@ def ct_setup(ctx):
         c.event("load", a[0], dict(k))
         if loaded_kind == "loader-error":
             raise PyRaise(ExcVal("YAMLError", origin="parse_value_or_config"))
+        if loaded_kind.startswith("file-is-not-text"):
+            # reading the file the value names is part of loading it: bytes that are not text, or a name with a null byte, raise (a subclass of) ValueError
+            raise PyRaise(ExcVal("UnicodeDecodeError", origin="parse_value_or_config"))
         return (loaded, config_path)
 
     n_calls = []
@@ -105,8 +108,20 @@ def common_obligations(ctx, d):
     return adapts, tag
 
 
+def _unreadable(ctx, d, outcome, value=None, exc=None):
+    """the file the value names cannot be read as text: a failure of this value like any other - the text itself when the type admits str, else TypeError naming the key"""
+    tag = f"[{d['orig_kind']},file-is-not-text,admits-str={d['valid_string']}]"
+    ctx.oblige("post", "nothing-is-adapted-from-a-file-that-could-not-be-read" + tag, not [e for e in ctx.events if e[0] == "adapt"])
+    if outcome == "return":
+        ctx.oblige("post", "accepted-only-as-the-text-itself,when-the-type-admits-str" + tag, d["valid_string"] and value is d["orig"])
+    else:
+        ctx.oblige("raises", f"only-TypeError-naming-the-key-leaves(got {exc.cls}@{exc.origin})" + tag, exc.cls == "TypeError" and exc.origin.startswith("raise@") and not d["valid_string"])
+
+
 def ct_post(ctx, st, result):
     d = st.data
+    if d["loaded_kind"].startswith("file-is-not-text"):
+        return _unreadable(ctx, d, "return", value=result)
     adapts, tag = common_obligations(ctx, d)
     out = result
     legit = [d["adapted1"], d["adapted2"]] + ([d["loaded"], d["orig"]] if d["valid_string"] else [])
@@ -117,6 +132,8 @@ def ct_post(ctx, st, result):
 
 def ct_raises(ctx, st, exc):
     d = st.data
+    if d["loaded_kind"].startswith("file-is-not-text"):
+        return _unreadable(ctx, d, "raise", exc=exc)
     adapts, tag = common_obligations(ctx, d)
     ctx.oblige("raises", "only-TypeError-naming-the-key-leaves" + tag, exc.cls == "TypeError" and exc.origin.startswith("raise@"))
     ctx.oblige("raises", "a-value-accepted-by-the-first-attempt-is-never-rejected" + tag, d["first"] != "accepts")
